@@ -21,6 +21,7 @@ func init() {
 		ID:    "arith/result-follows-operand",
 		Text:  "in the mixed-kind arithmetic methods of the numeric value types (AddVal, SubtractVal, MultiplyVal, DivideVal, ModuloVal, ExponentiateVal taking the operand as a value.Value), every return whose first result is not Undefined lies inside a case arm of a switch over the operand's representation (its ValueFlag or the dynamic type of its reference)",
 		Floor: 40,
+		Arch:  true,
 		Run:   runArithResult,
 	})
 }
